@@ -36,9 +36,11 @@ def main():
         pass
     checks = []
     na = []
+    pend = os.path.join(core.ROOT, "engine", "pending.txt")
+    pending = set(open(pend).read().split()) if os.path.exists(pend) else set()
     for p in plist:
         pid = p["id"]
-        if pid in props.TABLE:
+        if pid in props.TABLE and pid not in pending:
             mod, space = META[pid]
             info = props.INFO.get(pid, {})
             checks.append(dict(
